@@ -320,14 +320,14 @@ ICMP = {"eq": ("==", 0), "ne": ("!=", 0), "ugt": (">", 0), "uge": (">=", 0), "ul
         "sgt": (">", 1), "sge": (">=", 1), "slt": ("<", 1), "sle": ("<=", 1)}
 FCMP = {"oeq": "==", "ogt": ">", "oge": ">=", "olt": "<", "ole": "<=", "une": "!="}
 # functions that never return normally (exceptional exits, aborts): DESIGN.md D2
-NORETURN = ("__cxa_throw", "__cxa_rethrow", "_Unwind_Resume", "__cxa_bad_cast", "__cxa_bad_typeid",
+NORETURN = ("__cxa_allocate_exception", "__cxa_throw", "__cxa_rethrow", "_Unwind_Resume", "__cxa_bad_cast", "__cxa_bad_typeid",
             "__cxa_pure_virtual", "_ZSt9terminatev", "abort", "__assert_fail", "__clang_call_terminate",
             "_ZSt17__throw_bad_allocv", "_ZSt20__throw_length_errorPKc", "_ZSt19__throw_logic_errorPKc",
             "_ZSt24__throw_out_of_range_fmtPKcz", "_ZSt20__throw_out_of_rangePKc",
             "_ZSt24__throw_invalid_argumentPKc", "_ZSt21__throw_runtime_errorPKc",
             "_ZSt28__throw_bad_array_new_lengthv", "_ZSt25__throw_bad_function_callv",
             "__cxa_throw_bad_array_new_length", "exit", "_exit")
-DROP_CALLS = ("llvm_2elifetime", "llvm_2edbg", "llvm_2eassume", "llvm_2eexperimental_2enoalias",
+DROP_CALLS = ("__cxa_atexit", "llvm_2elifetime", "llvm_2edbg", "llvm_2eassume", "llvm_2eexperimental_2enoalias",
               "llvm_2einvariant", "llvm_2edonothing", "llvm_2eprefetch")
 
 class Func:
@@ -719,6 +719,32 @@ def main():
         hdr, body = funcs[f]
         # ignore references that occur only in landing pads?  (kept: harmless over-approximation)
         scan("\n".join(body))
+    # ---- dynamic initialisers (@llvm.global_ctors): an initialiser function is included (and called by
+    #      LL_global_ctors(), which every harness runs first) iff it initialises a global that the emitted
+    #      code references; iostream / library-wide Init objects are thereby left out.
+    ctor_calls = []
+    inits = []
+    for f in order:
+        if f.startswith("_GLOBAL__sub_I_"):
+            for m2 in re.finditer(r'call void @' + NAME + r'\(\)', "\n".join(funcs[f][1])):
+                inits.append(cid(m2.group(1)))
+    changed = True
+    while changed:
+        changed = False
+        for f in inits:
+            if f in ctor_calls or f not in funcs: continue
+            tg = [cid(m2.group(1)) for m2 in RX_GLOBAL.finditer("\n".join(funcs[f][1]))]
+            tg = [g for g in tg if g in globs and g != "__dso_handle"]
+            if any(g in sg for g in tg):
+                ctor_calls.append(f); changed = True
+                work.append(f)
+                while work:
+                    f2 = work.pop()
+                    if f2 in sf: continue
+                    sf.add(f2); seen_f.append(f2)
+                    if f2 in cut: continue
+                    scan("\n".join(funcs[f2][1]))
+    ctor_calls = [f for f in inits if f in ctor_calls]
     emit_f = [f for f in order if f in sf and f not in cut]
     # ---- translate
     Fs = {}
@@ -777,6 +803,8 @@ def main():
         sg.add(n)
     idefs = []; intrinsic_defs(idefs)
     tl = []; emit_types(tl)
+    bodies.append("void LL_global_ctors(void) {\n" + "".join("  %s();\n" % f for f in ctor_calls) + "}")
+    protos.append("void LL_global_ctors(void);")
     head = "\n".join(out[:TYPES_AT] + tl + ["#ifndef LL2C_TYPES_ONLY"] + protos + gdecl + idefs + out[TYPES_AT:] + ["#endif /* LL2C_TYPES_ONLY */"]) + "\n"
     text = "\n".join(bodies) + "\n"
     if a.header:
